@@ -3,6 +3,7 @@
 // libpomerol.so and libboost_mpi.so is observed (and perturbed by a seeded delay) without touching the repository.
 // Each rank appends one JSON line per observed call, AFTER the call returned, to <logdir>/rank<k>.ndjson with a
 // per-rank sequence number; no wall-clock ordering across ranks is ever used.
+#include <memory>
 #include "pv_common.hpp"
 #include "pv_model.hpp"
 #include "pv_container.hpp"
@@ -174,6 +175,36 @@ static void run_dispatch(const json& sc, boost::mpi::communicator& world) {
     }
 }
 
+// {"mode":"dispatch_nomaster", ...as dispatch..., "joblist":bool}: rank 0 is a pure master (MPIMaster(..., include_boss = false), the loop of
+// test/mpi_dispatcher_test_nomaster.cpp), the other ranks are workers; joblist selects the constructor that takes the vector of job ids
+static void run_dispatch_nomaster(const json& sc, boost::mpi::communicator& world) {
+    int R = sc.at("R").get<int>(), J = sc.at("J").get<int>();
+    bool joblist = sc.value("joblist", false);
+    const int ROOT = 0;
+    for (int r = 0; r < R; ++r) {
+        std::vector<CountingJob> parts(J);
+        std::vector<pMPI::JobId> order(J);
+        for (int j = 0; j < J; ++j) { parts[j].id = j; parts[j].complexity = sc["complexity"][r][j].get<int>(); parts[j].usec = sc["usec"][r][j].get<int>(); order[j] = j; }
+        std::sort(order.begin(), order.end(), [&](int a, int b) { return parts[a].complexity > parts[b].complexity; });
+        wlog({{"e", "RoundBegin"}, {"round", r + 1}});
+        world.barrier();
+        json jm = json::array();
+        if (world.rank() == ROOT) {
+            std::unique_ptr<pMPI::MPIMaster> master(joblist ? new pMPI::MPIMaster(world, order, false) : new pMPI::MPIMaster(world, (size_t)J, false));
+            for (; !master->is_finished();) { master->order(); master->check_workers(); }
+            for (auto& kv : master->DispatchMap) jm.push_back(json::array({kv.first, kv.second}));
+        } else {
+            pMPI::MPIWorker worker(world, ROOT);
+            for (; !worker.is_finished();) {
+                worker.receive_order();
+                if (worker.is_working()) { parts[worker.current_job()].run(); worker.report_job_done(); }
+            }
+        }
+        world.barrier();
+        wlog({{"e", "RoundEnd"}, {"round", r + 1}, {"map", jm}});
+    }
+}
+
 void run_workflow(const json& sc, boost::mpi::communicator& world);   // pv_mpi_workflow.hpp
 
 #include "pv_mpi_workflow.hpp"
@@ -196,6 +227,7 @@ int main(int argc, char** argv) {
     g_on = true;
     std::string mode = sc.value("mode", "dispatch");
     if (mode == "dispatch") run_dispatch(sc, world);
+    else if (mode == "dispatch_nomaster") run_dispatch_nomaster(sc, world);
     else run_workflow(sc, world);
     g_on = false;
     wlog({{"e", "Exit"}});
